@@ -433,6 +433,13 @@ func (c20) Oracle(inp interface{}, obs Sx) (string, string) {
 		return t.L[0].Z
 	}
 	scheme, secure := c20WsURL(in.Addr)
+	shape := ""
+	if in.Form != "raw" {
+		shape = "-" + in.Form + "-noport"
+		if in.HasP {
+			shape = "-" + in.Form + "-port"
+		}
+	}
 	if scheme {
 		if kind(client) != 1 || string(bytesOf(client.L[1])) != in.Addr {
 			return fmt.Sprintf("%q is a URL with the ws/wss scheme: NewClientTransport must give the WebSocket transport with the address untouched (got kind %d)", in.Addr, kind(client)), "scheme-client"
@@ -445,10 +452,10 @@ func (c20) Oracle(inp interface{}, obs Sx) (string, string) {
 		}
 	} else {
 		if kind(client) != 0 {
-			return fmt.Sprintf("%q is not a ws:// or wss:// URL: NewClientTransport must return the XMPP (TCP) transport (got kind %d)", in.Addr, kind(client)), "noscheme-client"
+			return fmt.Sprintf("%q is not a ws:// or wss:// URL: NewClientTransport must return the XMPP (TCP) transport (got kind %d)", in.Addr, kind(client)), "noscheme-client" + shape
 		}
 		if kind(comp) != 0 {
-			return fmt.Sprintf("%q is not a ws:// or wss:// URL: NewComponentTransport must return the XMPP (TCP) transport (got kind %d)", in.Addr, kind(comp)), "noscheme-component"
+			return fmt.Sprintf("%q is not a ws:// or wss:// URL: NewComponentTransport must return the XMPP (TCP) transport (got kind %d)", in.Addr, kind(comp)), "noscheme-component" + shape
 		}
 	}
 	if in.Form == "raw" {
@@ -460,12 +467,7 @@ func (c20) Oracle(inp interface{}, obs Sx) (string, string) {
 			return fmt.Sprintf("generator produced %q as an IP literal: %v", in.Host, err), "gen-invalid-literal"
 		}
 	}
-	shape := in.Form
-	if in.HasP {
-		shape += "-port"
-	} else {
-		shape += "-noport"
-	}
+	shape = shape[1:]
 	// "a valid host:port that keeps the given host and explicit port and adds the
 	// default port only when none was given"
 	valid := func(what string, sp Sx, wantPort string, sig string) (string, string) {
